@@ -10,6 +10,9 @@ use sux::prelude::*;
 use vh::bfs::{bfs, Viol};
 use vh::rt::*;
 
+/// Set while a seed state is observed: the (costlier) iterator-protocol observations run there only.
+static PROTO: std::sync::atomic::AtomicBool = std::sync::atomic::AtomicBool::new(false);
+
 #[derive(Clone)]
 struct St {
     words: Vec<usize>,
@@ -275,6 +278,21 @@ fn observe(prop: &str, s: &St, viol: &mut Vec<Viol>) {
         let ez: Vec<usize> = (0..n).filter(|&i| !m[i]).collect();
         if zeros != ez {
             out.push(("BitVec::iter_zeros", format!("iter_zeros() = {:?} expected {:?}", &zeros[..zeros.len().min(6)], &ez[..ez.len().min(6)])));
+        }
+        if PROTO.load(Ordering::Relaxed) {
+            // the iterator protocol beyond a plain pass (nth / skip / step_by / count / last / size_hint)
+            if let Some(w) = vh::models::iter_protocol(|| b.iter(), m) {
+                out.push(("BitVec::iter", w));
+            }
+            if let Some(w) = vh::models::iter_protocol(|| (&b).into_iter(), m) {
+                out.push(("BitVec::into_iter", w));
+            }
+            if let Some(w) = vh::models::iter_protocol(|| b.iter_ones(), &eo) {
+                out.push(("BitVec::iter_ones", w));
+            }
+            if let Some(w) = vh::models::iter_protocol(|| b.iter_zeros(), &ez) {
+                out.push(("BitVec::iter_zeros", w));
+            }
         }
         if b.count_ones() != eo.len() {
             out.push(("BitVec::count_ones", format!("count_ones() = {} expected {}", b.count_ones(), eo.len())));
@@ -558,7 +576,9 @@ fn main() {
         // unit 0 of each seed: observe the seed itself
         if ctx.case(|| format!("BitVec seed={name} first_op=<none>")) {
             let mut viol = vec![];
+            PROTO.store(true, Ordering::Relaxed);
             observe(&prop, &seed, &mut viol);
+            PROTO.store(false, Ordering::Relaxed);
             ctx.states += 1;
             for (k, w) in viol {
                 ctx.violation(&k, format!("{w}; in seed state"));
